@@ -53,8 +53,8 @@ PROPS["C19"] = dict(module=check_multi, sizes={"quick": (40, (8, 40)), "thorough
 import check_gen
 
 GEN_SIZES = {
-    "quick": dict(random_params=10, seeds=2, seeds_small=8, c14_sets=16, hashseeds=[1, "random"], traj_steps=150, watchdog_s=6),
-    "thorough": dict(random_params=200, seeds=6, seeds_small=40, c14_sets=60, hashseeds=[0, 1, 2, "random"], traj_steps=600, watchdog_s=20),
+    "quick": dict(random_params=10, seeds=2, seeds_small=8, scripted=2, c14_sets=16, hashseeds=[1, "random"], traj_steps=150, watchdog_s=6),
+    "thorough": dict(random_params=200, seeds=6, seeds_small=40, scripted=12, c14_sets=60, hashseeds=[0, 1, 2, "random"], traj_steps=600, watchdog_s=20),
 }
 for _pid in ("C14", "C15", "C16"):
     PROPS[_pid] = dict(module=check_gen, sizes=GEN_SIZES, coq_sample={"quick": 3, "thorough": 12})
